@@ -64,6 +64,30 @@ func poolHistory(cs Case) {
 	default:
 		h = logger.NewJsonHandler(io.Discard, opts)
 	}
+	if cs.PoolKind >= 3 {
+		// kinds 3..5: the earlier record's size sits in its group path (one long WithGroup name, or many
+		// short ones), written through a nano / text / json handler: whatever scratch the handlers keep
+		// for key prefixes and open groups has been grown by it
+		switch cs.PoolKind {
+		case 3:
+			h = logger.NewTextHandler(io.Discard, opts)
+		case 4:
+			h = logger.NewJsonHandler(io.Discard, opts)
+		default:
+			h = logger.NewNanoHandler(io.Discard, opts)
+		}
+		l := logger.New(h)
+		if cs.PoolBytes%2 == 0 {
+			l = l.WithGroup(strings.Repeat("G", cs.PoolBytes))
+		} else {
+			for n := 0; n < cs.PoolBytes; n += 8 {
+				l = l.WithGroup("grp" + strconv.Itoa(n))
+			}
+		}
+		l.Info("big", "v", 1, slog.Group("inner", "w", 2))
+		l.With("pre", 1).Info("big", "v", 1)
+		return
+	}
 	logger.New(h).Info("big", "v", strings.Repeat("x", cs.PoolBytes))
 }
 
@@ -648,6 +672,45 @@ func (mn mon) Run(sh drv.Shard, c *drv.Ctx) {
 							return
 						}
 					}
+				}
+			}
+		}
+		// ... and the sizes sit in the group path of the earlier record (kinds 3..5)
+		for _, size := range []int{64, 100, 255, 256, 257, 300, 511, 512, 513, 1000, 1025, 4096, 4097, 20001} {
+			for kind := 3; kind < 6; kind++ {
+				for via := 0; via < 3; via++ {
+					idx++
+					rec := attrgen.Rec{Msg: []byte("after"), Level: idx % 5, Attrs: []attrgen.Node{{Key: []byte("k"), Val: &attrgen.Val{T: "int", I: int64(idx)}}, {Key: []byte("s"), Val: &attrgen.Val{T: "str", B: []byte("a b")}}}}
+					if via >= 1 {
+						rec.Chain = []attrgen.ChainOp{{Attrs: []attrgen.Node{{Key: []byte("w"), Val: &attrgen.Val{T: "int", I: 7}}}}, {IsGrp: true, Group: []byte("g")}}
+					}
+					cs := Case{Rec: rec, Via: via, AddSource: idx%2 == 0, PoolBytes: size, PoolKind: kind}
+					if !exec(cs, fmt.Sprintf("pool-prefix %d/%d/%d", size, kind, via)) {
+						return
+					}
+				}
+			}
+		}
+		// the judged record itself is big: its message, a call-site value, or a value / group name given to
+		// With carries the size (around the 16 KiB limit less the handlers' own 1 KiB, and far beyond)
+		for _, size := range []int{14000, 15000, 15300, 15359, 15360, 15361, 15400, 16000, 16383, 16384, 16385, 17000, 33000, 70000, 1 << 20} {
+			for where := 0; where < 4; where++ {
+				idx++
+				big := []byte(strings.Repeat("b", size))
+				rec := attrgen.Rec{Msg: []byte("m"), Level: idx % 5, Attrs: []attrgen.Node{{Key: []byte("k"), Val: &attrgen.Val{T: "int", I: int64(idx)}}}}
+				switch where {
+				case 0:
+					rec.Msg = big
+				case 1:
+					rec.Attrs = append(rec.Attrs, attrgen.Node{Key: []byte("big"), Val: &attrgen.Val{T: "str", B: big}})
+				case 2:
+					rec.Chain = []attrgen.ChainOp{{Attrs: []attrgen.Node{{Key: []byte("w"), Val: &attrgen.Val{T: "str", B: big}}}}}
+				default:
+					rec.Chain = []attrgen.ChainOp{{IsGrp: true, Group: big}, {Attrs: []attrgen.Node{{Key: []byte("w"), Val: &attrgen.Val{T: "int", I: 7}}}}}
+				}
+				cs := Case{Rec: rec, Via: idx % 3, AddSource: idx%2 == 0, Decoys: where >= 2 && idx%4 == 0}
+				if !exec(cs, fmt.Sprintf("big-record %d/%d", size, where)) {
+					return
 				}
 			}
 		}
